@@ -158,7 +158,7 @@ def gen_programs(rnd, quick):
             " ".join("g%d" % i for i in range(k))))
         progs.append(("counters-spawn-overlap-k%d" % k, exp, "%s %s %s" % (defs, workers, body), {"K15a", "K15b"}))
         # one assigner, k-1 readers of another global
-        rd = 200000 if quick else 1500000
+        rd = 200000 if quick else 600000
         body = ("(define g 0) (define h 0) (define (work n) (if (= n 0) 0 (begin (set! g (+ g 1)) (work (- n 1)))))"
                 " (define (reader n acc) (if (= n 0) acc (reader (- n 1) (+ acc (if (< h 0) 1 0)))))"
                 " (let ((ts (list %s))) (work %d) (list g (map thread-join! ts)))" % (
@@ -285,7 +285,14 @@ def run(ctx):
         for jit in ("true", "false"):
             for r in range(reps):
                 jobs.append((n, e, p, cl, jit, (ctx.seed * 31 + r * 7 + 1) if r % 2 == 0 else None))
-    res = C.pool_map(lambda j: (j, run_program(j[0], j[1], j[2], j[4], 8000, j[5])), jobs, workers=max(2, C.NCPU // 4))
+    def prog_job(j):
+        kv = run_program(j[0], j[1], j[2], j[4], 8000, j[5])
+        if kv.get("outcome") == "hang-running":
+            # still dispatching when the bound expired (slow / loaded machine): once more with 5x the bound
+            kv = run_program(j[0], j[1], j[2], j[4], 40000, j[5])
+        return j, kv
+
+    res = C.pool_map(prog_job, jobs, workers=max(2, C.NCPU // 4))
     for (n, e, p, cl, jit, jitter), kv in res:
         judge_program(ctx, n, e, p, cl, jit, jitter, kv, known, stats)
     # witnesses of the open findings that were not met above
